@@ -13,6 +13,7 @@ import (
 	"strconv"
 	"strings"
 	"sync"
+	"sync/atomic"
 	"time"
 
 	"nhooyr.io/websocket"
@@ -74,7 +75,11 @@ func genNetConn(r *Rng, tier string, stat func(string)) []string {
 	for _, side := range []string{"read", "write"} {
 		for _, when := range []string{"idle-past", "idle-future", "active", "active-setpast", "active-setfuture", "idle-midmessage-past", "idle-midmessage-future"} {
 			for k := 0; k < 2; k++ {
-				out = append(out, fmt.Sprintf("kind=deadline side=%s when=%s", side, when))
+				if k == 1 {
+					out = append(out, fmt.Sprintf("kind=deadline side=%s when=%s via=both", side, when))
+				} else {
+					out = append(out, fmt.Sprintf("kind=deadline side=%s when=%s", side, when))
+				}
 				stat("deadline")
 			}
 		}
@@ -103,7 +108,39 @@ func ncErr(err error) string {
 	return "err"
 }
 
+// ghostConn counts bytes that a FAILING call of the adapter reports: in this suite every failure happens with nothing
+// transferred by that call, so a failing Read must report 0 bytes (an io.Reader's caller consumes p[:n] before it looks
+// at the error) and a failing Write must report 0 bytes written.
+type ghost struct{ r, w int64 }
+
+type ghostConn struct {
+	net.Conn
+	g *ghost
+}
+
+func (c ghostConn) Read(p []byte) (int, error) {
+	n, err := c.Conn.Read(p)
+	if err != nil && n > 0 {
+		atomic.AddInt64(&c.g.r, int64(n))
+	}
+	return n, err
+}
+
+func (c ghostConn) Write(p []byte) (int, error) {
+	n, err := c.Conn.Write(p)
+	if err != nil && n > 0 {
+		atomic.AddInt64(&c.g.w, int64(n))
+	}
+	return n, err
+}
+
 func runNetConn(kv map[string]string) string {
+	g := &ghost{}
+	r := runNetConnG(kv, g)
+	return r + fmt.Sprintf(" ghost=%d:%d", atomic.LoadInt64(&g.r), atomic.LoadInt64(&g.w))
+}
+
+func runNetConnG(kv map[string]string, g *ghost) string {
 	ctx, cancel := context.WithTimeout(context.Background(), 30*time.Second)
 	defer cancel()
 	typ, _ := strconv.Atoi(kv["typ"])
@@ -118,8 +155,8 @@ func runNetConn(kv map[string]string) string {
 		if err != nil {
 			return "dialerr=" + errClass(err)
 		}
-		a := websocket.NetConn(ctx, c, websocket.MessageType(typ))
-		b := websocket.NetConn(ctx, s, websocket.MessageType(typ))
+		a := net.Conn(ghostConn{websocket.NetConn(ctx, c, websocket.MessageType(typ)), g})
+		b := net.Conn(ghostConn{websocket.NetConn(ctx, s, websocket.MessageType(typ)), g})
 		var data []byte
 		var werr error
 		var wg sync.WaitGroup
@@ -158,8 +195,7 @@ func runNetConn(kv map[string]string) string {
 		wg.Wait()
 		b.Close()
 		// a second Read after EOF must still be EOF
-		_, e2 := b.Read(make([]byte, 8))
-		_ = e2
+		b.Read(make([]byte, 8)) // bytes reported here would be counted as ghost bytes
 		return fmt.Sprintf("werr=%v end=%s n=%d fnv=%s wn=%d wfnv=%s zeroreads=%d", werr == nil, ncErr(rerr), len(got), Fnv(got), len(data), Fnv(data), zero)
 	case "drop":
 		cfg := EndpointCfg{Role: "client"}
@@ -168,7 +204,7 @@ func runNetConn(kv map[string]string) string {
 			return "dialerr=" + errClass(err)
 		}
 		peer := startAutoPeer(raw, cfg.Role, true)
-		nc := websocket.NetConn(ctx, c, websocket.MessageType(typ))
+		nc := net.Conn(ghostConn{websocket.NetConn(ctx, c, websocket.MessageType(typ)), g})
 		peer.send(rawFrame{Fin: true, Opcode: byte(typ), Payload: []byte("abc")})
 		switch kv["how"] {
 		case "eof":
@@ -192,7 +228,7 @@ func runNetConn(kv map[string]string) string {
 			return "dialerr=" + errClass(err)
 		}
 		peer := startAutoPeer(raw, cfg.Role, true)
-		nc := websocket.NetConn(ctx, c, websocket.MessageType(typ))
+		nc := net.Conn(ghostConn{websocket.NetConn(ctx, c, websocket.MessageType(typ)), g})
 		if kv["kind"] == "close" {
 			code, _ := strconv.Atoi(kv["code"])
 			peer.send(rawFrame{Fin: true, Opcode: byte(typ), Payload: []byte("abc")})
@@ -224,14 +260,16 @@ func runNetConn(kv map[string]string) string {
 		if err != nil {
 			return "dialerr=" + errClass(err)
 		}
-		a := websocket.NetConn(ctx, c, websocket.MessageBinary)
-		b := websocket.NetConn(ctx, s, websocket.MessageBinary)
+		a := net.Conn(ghostConn{websocket.NetConn(ctx, c, websocket.MessageBinary), g})
+		b := net.Conn(ghostConn{websocket.NetConn(ctx, s, websocket.MessageBinary), g})
 		defer c.CloseNow()
 		defer s.CloseNow()
 		go io.Copy(io.Discard, b) // the other end keeps reading so that writes complete
 		read := kv["side"] == "read"
 		set := func(t time.Time) {
-			if read {
+			if kv["via"] == "both" {
+				a.SetDeadline(t) // sets the read and the write deadline
+			} else if read {
 				a.SetReadDeadline(t)
 			} else {
 				a.SetWriteDeadline(t)
